@@ -181,10 +181,25 @@ def intfs_for(k):
     return [float(i) for i in range(k)]
 
 
+CLIMB = False     # per instance: paths climb through every lower region (needed when an interface cap is set: no holes)
+
+
+def cap_for(k):
+    return (k - 1) - 0.25
+
+
 def mk_plus_path(k, reach, m=1, pn=None, files=None):
-    """a 3(+)-frame plus path that starts left of lambda_0, has m frames between lambda_{reach-1} and lambda_reach, ends left."""
+    """a plus path that starts left of lambda_0, has m frames between lambda_{reach-1} and lambda_reach, ends left.
+    With CLIMB it visits every lower region on the way up and, at full reach, also has a frame between the cap and the last
+    interface (so that weights computed with and without the cap differ)."""
     lam = intfs_for(k)
     top = lam[reach - 1] + 0.5
+    if CLIMB:
+        orders = [lam[0] - 1.0] + [lam[j] + 0.5 for j in range(reach - 1)] + [top] * m
+        if reach == k - 1:
+            orders.append(lam[-1] - 0.1)
+        orders.append(lam[0] - 1.0)
+        return _mk_path(orders, pn, files)
     orders = [lam[0] - 1.0] + [top] * m + [lam[0] - 1.0]
     return _mk_path(orders, pn, files)
 
@@ -207,7 +222,14 @@ def _mk_path(orders, pn, files):
     return p
 
 
-def base_config(k, workers, moves, steps, delete_old, delete_all=False, engines=None):
+def base_config(k, workers, moves, steps, delete_old, delete_all=False, engines=None, cap=None):
+    cfg = _base_config(k, workers, moves, steps, delete_old, delete_all, engines)
+    if cap is not None:
+        cfg["simulation"]["tis_set"]["interface_cap"] = cap
+    return cfg
+
+
+def _base_config(k, workers, moves, steps, delete_old, delete_all=False, engines=None):
     return {
         "current": {"traj_num": k, "cstep": 0, "active": list(range(k)), "locked": [], "size": k, "frac": {}},
         "runner": {"workers": workers},
@@ -217,7 +239,7 @@ def base_config(k, workers, moves, steps, delete_old, delete_all=False, engines=
                        "ensemble_engines": engines or [["engine"]] * k},
         "output": {"screen": 0, "data_dir": "./", "data_file": "./infretis_data.txt", "delete_old": delete_old,
                    "delete_old_all": delete_all, "pattern": False},
-        "engine": {"class": "stub"},
+        "engine": {"class": "stub"}, "engine0": {"class": "stub"}, "engA": {"class": "stub"}, "engB": {"class": "stub"},
     }
 
 
@@ -234,6 +256,19 @@ def new_state(config, world):
             cnt[e] = cnt.get(e, 0) + 1
     st.engine_occ = {e: [-1] * min(n, config["runner"]["workers"]) for e, n in cnt.items()}
     return st
+
+
+def _engine_layout(k, kind):
+    """which engine types the ensembles use: one type for all; the quantis-like layout ([0-] on its own type); or two types
+    interleaved so that [0-] and [0+] differ and both types are shared with other ensembles."""
+    if kind == "single":
+        return None
+    if kind == "quantis":
+        return [["engine0"]] + [["engine"]] * (k - 1)
+    names = ["engA", "engB"]
+    lay = [[names[0]], [names[1]]] + [[names[(i + 1) % 2]] for i in range(2, k)]
+    lay[-1] = [names[0]]
+    return lay
 
 
 def md0_of(st):
@@ -592,6 +627,8 @@ def restart_roundtrip(ctx, st, world, inflight, k):
     want = sorted(sorted((e + 1, m["picked"][e]["traj"].path_number) for e in m["ens_nums"]) for m in inflight)
     ctx.check(sorted(reissued) == want, "C06:restart-re-issues-exactly-the-in-flight-jobs", f"{reissued} vs {want}")
     ctx.cover("restart:roundtrip")
+    if st.cap is not None:
+        ctx.cover("restart:with-cap")
     if inflight:
         ctx.cover("restart:with-in-flight")
     _install_world(saved_world)
@@ -693,6 +730,27 @@ def instances(tier, prop):
                                 "numbering": "later" if want_delete else "initial",
                                 "delete": "lag" if want_delete else "off", "restart": restart and not thin, "prop": prop,
                                 "_cost": k ** 3 * len(jobs) * (4 if wf else 1)})
+    if prop in ("C06", "C04", "C05"):
+        # with an interface cap: weights recomputed at a restart must use the cap as well
+        for k in (3, 4):
+            moves = ["sh", "sh"] + ["wf"] * (k - 2)
+            for arr in itertools.product(range(1, k), repeat=k - 1):
+                for jobs in _jobsets(k, arr):
+                    hh = _stable_hash(("cap", k, arr, jobs))
+                    if hh % (6 if (quick and k == 4) else 2):
+                        continue
+                    out.append({"kind": "ind", "k": k, "moves": moves, "arr": list(arr), "jobs": [list(j) for j in jobs],
+                                "numbering": "initial", "delete": "off", "restart": True, "prop": prop, "cap": True,
+                                "_cost": k ** 3 * len(jobs) * 4})
+    if prop == "C03":
+        extra = []
+        for s in out:
+            if s["kind"] == "ind" and s["k"] in (3, 4) and "wf" not in s["moves"] and len(s["jobs"]) >= 2:
+                for lay in ("mixed", "quantis"):
+                    if quick and _stable_hash((lay, s["arr"], s["jobs"])) % 2:
+                        continue
+                    extra.append(dict(s, engines=lay))
+        out += extra
     bm = [(2, 1, 3), (3, 1, 2), (3, 2, 2)] if quick else [(2, 1, 5), (3, 1, 4), (3, 2, 3), (4, 1, 3), (4, 2, 2), (4, 3, 2)]
     for k, w, D in bm:
         for moves in ([["sh"] * k] + ([["sh", "sh"] + ["wf"] * (k - 2)] if k >= 3 else [])):
@@ -705,12 +763,14 @@ def instances(tier, prop):
     return out
 
 
-EXPECT = ["ind:accepted", "ind:rejected", "ind:zero-swap-in-flight", "pick:zero-swap", "restart:roundtrip",
+EXPECT = ["restart:with-cap", "ind:accepted", "ind:rejected", "ind:zero-swap-in-flight", "pick:zero-swap", "restart:roundtrip",
           "restart:with-in-flight", "bmc:depth-reached", "sort:swapped", "delete:removed"]
 
 
 def expect(tier, prop):
     e = list(EXPECT)
+    if prop not in ("C04", "C05", "C06"):
+        e = [x for x in e if x != "restart:with-cap"]
     if prop not in ("C04", "C05", "C06"):
         e = [x for x in e if not x.startswith("restart:")]
     if prop != "C14":
@@ -742,7 +802,10 @@ def _ind(ctx, sh):
     workers = len(jobs)
     world = World()
     delete_old = sh["delete"] != "off"
-    cfg = base_config(k, workers, moves, steps=10 ** 6, delete_old=delete_old, delete_all=delete_old)
+    global CLIMB
+    CLIMB = bool(sh.get("cap"))
+    cfg = base_config(k, workers, moves, steps=10 ** 6, delete_old=delete_old, delete_all=delete_old,
+                      engines=_engine_layout(k, sh.get("engines", "single")), cap=cap_for(k) if sh.get("cap") else None)
     st = new_state(cfg, world)
     n = st.n
     # ---- arbitrary arrangement (all idle), set directly
@@ -867,6 +930,8 @@ def _bmc(ctx, sh):
     k, w, moves, arr, D = sh["k"], sh["workers"], sh["moves"], sh["arr"], sh["depth"]
     world = World()
     delete_old = sh["delete"] == "on"
+    global CLIMB
+    CLIMB = False
     steps = D if ctx.choice(2, "steps-bound") else 10 ** 6
     cfg = base_config(k, w, moves, steps=steps, delete_old=delete_old, delete_all=False)
     try:
